@@ -68,3 +68,13 @@ func (r *Rand) Perm(n int) []int {
 	}
 	return p
 }
+
+func hashStr(s string) uint64 {
+	var h uint64 = 1469598103934665603
+	for i := 0; i < len(s); i++ {
+		h ^= uint64(s[i])
+		h *= 1099511628211
+	}
+	return h
+}
+
